@@ -54,19 +54,29 @@ HOSTS = {
 NOTE_HOSTS = {"numeric": "numeric host accepted (an IPv4 address to inet_aton/getaddrinfo; a name to net.ParseIP and the pure-Go resolver)",
               "emptyhost": "identifier without host part accepted: connection attempt to ':<port>' (the local machine)"}
 
-# path class -> variants (idpart, expected path segments after one round of percent-decoding | None = identifier must be refused)
-P = lambda i, s: dict(id=i, segs=s)
+# path class -> variants (idpart, expected path segments after one round of percent-decoding | None = identifier must be refused,
+# decoys = OTHER locations on the same host that a canonicalisation of the path leads to - decoding once more, cleaning "." / ".."
+# segments, folding case - written out by hand: typically the location another identifier encodes, e.g. /b/did.json for ":a:..:b")
+P = lambda i, s, decoys=(): dict(id=i, segs=s, decoys=list(decoys))
 PATHS = {
     "none":      [P("", [])],
     "segs":      [P(":a:b", ["a", "b"]), P(":iam:5a1c4b1e-7f3b-4c1e-9d37-0d8f2c6a9e11", ["iam", "5a1c4b1e-7f3b-4c1e-9d37-0d8f2c6a9e11"]), P(":a", ["a"]),
-                  P(":a-b_c.d:e:f:g", ["a-b_c.d", "e", "f", "g"]), P(":a1:b2:c3", ["a1", "b2", "c3"])],
+                  P(":a-b_c.d:e:f:g", ["a-b_c.d", "e", "f", "g"]), P(":a1:b2:c3", ["a1", "b2", "c3"]),
+                  P(":Tenants:Admin", ["Tenants", "Admin"], ["/tenants/admin/did.json", "/TENANTS/ADMIN/did.json"]),
+                  P(":users:Alice", ["users", "Alice"], ["/users/alice/did.json"])],
     "subdelims": [P(":alice%2Band%2Bbob:path", ["alice+and+bob", "path"]), P(":a%40b", ["a@b"]), P(":a%3Ab", ["a:b"]), P(":%7Euser", ["~user"]),
                   P(":a%3Db%26c%2Cd%3Be", ["a=b&c,d;e"]), P(":%21%24%27%28%29%2A", ["!$'()*"])],
     "pctother":  [P(":a%20b", ["a b"]), P(":%C3%A9", ["é"]), P(":a%22b", ['a"b']), P(":a%5Bb%5D", ["a[b]"]), P(":x:a%3Cb%3E", ["x", "a<b>"])],
-    "pctslash":  [P(":a%2Fb", ["a/b"]), P(":a%2F..%2F..%2Fb", ["a/../../b"]), P(":%2F%2Fevil.example", ["//evil.example"]), P(":x:y%2Fz", ["x", "y/z"])],
+    "pctslash":  [P(":a%2Fb", ["a/b"], ["/a/b/did.json"]), P(":a%2F..%2F..%2Fb", ["a/../../b"], ["/a/../../b/did.json", "/b/did.json"]),
+                  P(":%2F%2Fevil.example", ["//evil.example"]), P(":x:y%2Fz", ["x", "y/z"], ["/x/y/z/did.json"])],
     "pctqf":     [P(":a%3Fb", ["a?b"]), P(":a%23b", ["a#b"]), P(":a%3Fb%23c", ["a?b#c"])],
-    "dblenc":    [P(":a%252Fb", ["a%2Fb"]), P(":a%2520b", ["a%20b"]), P(":a%253A", ["a%3A"]), P(":%2525", ["%25"])],
-    "dot":       [P(":a:..:b", ["a", "..", "b"]), P(":..:..:etc", ["..", "..", "etc"]), P(":.:a", [".", "a"]), P(":.well-known", [".well-known"])],
+    "dblenc":    [P(":a%252Fb", ["a%2Fb"], ["/a%2Fb/did.json", "/a/b/did.json"]), P(":a%2520b", ["a%20b"], ["/a%20b/did.json"]),
+                  P(":a%253A", ["a%3A"], ["/a%3A/did.json", "/a:/did.json"]), P(":%2525", ["%25"], ["/%25/did.json"])],
+    "dot":       [P(":a:..:b", ["a", "..", "b"], ["/b/did.json"]), P(":..:..:etc", ["..", "..", "etc"], ["/etc/did.json"]),
+                  P(":.:a", [".", "a"], ["/a/did.json"]), P(":.well-known", [".well-known"]),
+                  P(":tenants:..:admin", ["tenants", "..", "admin"], ["/admin/did.json"]), P(":a:.", ["a", "."], ["/a/did.json"]),
+                  P(":a:b:..", ["a", "b", ".."], ["/a/did.json"]), P(":..", [".."], ["/did.json", "/.well-known/did.json"]),
+                  P(":%2E%2E:x", ["..", "x"], ["/x/did.json"]), P(":a:%2E:b", ["a", ".", "b"], ["/a/b/did.json"])],
     "empty":     [P(":a::b", None), P("::a", None), P(":::", None), P(":a:b::", None)],
     "trailing":  [P(":a:", None), P(":", None), P(":a:b:", None)],
 }
@@ -78,8 +88,11 @@ CT_BAD = ["text/html", "text/plain", "application/jwt", "application/octet-strea
 REDIRECT_CODES = [301, 302, 303, 307, 308]
 
 
-def S(status=200, ctype="application/json", body="doc", body_id="", location=""):
-    return dict(status=status, ctype=ctype, body=body, body_id=body_id, location=location)
+def S(status=200, ctype="application/json", body="doc", body_id="", location="", serve_at=None):
+    d = dict(status=status, ctype=ctype, body=body, body_id=body_id, location=location)
+    if serve_at:
+        d["serve_at"] = list(serve_at)     # the scripted answer exists at these request paths only; every other path answers 404
+    return d
 
 
 def answer_variants(ans, did, hv, pv):
@@ -163,13 +176,17 @@ def concretise(pred, rnd, k):
     if c["local"] != "none":
         hv, pv = HOSTS["name"][0], PATHS["segs"][0]
         for s in pick(rnd, answer_variants(c["ans"], "did:web:managed", hv, pv), k):
-            out.append(dict(kind="managed", local=c["local"], meta=c["meta"], server=s, order=c["built"]))
+            out.append(dict(kind="managed", local=c["local"], meta=c["meta"], server=s, order=c["built"], hist=c["hist"], ahead=c["ahead"]))
         return out
+    decoy = c.get("site") == "decoy"
+    pvs = [pv for pv in PATHS[c["path"]] if pv["decoys"]] if decoy else PATHS[c["path"]]
     for hv in pick(rnd, HOSTS[c["host"]], k):
-        for pv in pick(rnd, PATHS[c["path"]], k):
+        for pv in pick(rnd, pvs, k):
             did = "did:web:" + hv["id"] + pv["id"]
             for s in pick(rnd, answer_variants(c["ans"], did, hv, pv), k):
-                out.append(dict(kind="web", did=did, server=s, local="none", meta=c["meta"], order=c["built"],
+                if decoy:
+                    s = dict(s, serve_at=pv["decoys"])
+                out.append(dict(kind="web", did=did, server=s, local="none", meta=c["meta"], order=c["built"], site=c.get("site", "enc"),
                                 x=dict(host=hv["host"], port=hv["port"], segs=pv["segs"])))
     return out
 
@@ -221,6 +238,18 @@ def is_ip_host(h):
         return False
 
 
+def history_class(case):
+    """Name of the clock behaviour a local history stands for (part of the violation signature)."""
+    h = case.get("hist") or []
+    if case.get("ahead", "none") != "none":
+        return "written-ahead-of-resolver-clock"
+    if any(h[i] > h[j] for i in range(len(h)) for j in range(i + 1, len(h))):
+        return "stepped-back"
+    if len(set(h)) < len(h):
+        return "same-second"
+    return "monotonic"
+
+
 def judge(case, pred, r):
     """Returns (violations:list of (sig, detail), drift:list of str, notes:list of str) for one executed case."""
     viol, drift, notes = [], [], []
@@ -257,8 +286,8 @@ def judge(case, pred, r):
             if q["n"] == 0 and allowed is not None:
                 want = x["segs"] + ["did.json"] if x["segs"] else [".well-known", "did.json"]
                 got = path_segments(q["path"])
-                if got != want and pc == "dot" and got == remove_dot_segments(want):
-                    got = want     # RFC 3986 5.2.4 normalisation of "." / ".." segments addresses the same resource
+                # "." / ".." segments are part of the path the identifier encodes: a cleaned path is the location of ANOTHER identifier
+                # (did:web:h:a:..:b and did:web:h:b would share one document location)
                 if got != want or q["query"]:
                     viol.append((dict(kind="fetch-other-path", **{"class": pc}),
                                  "%s: identifier encodes path segments %s, request went to %s%s" % (case["did"], want, q["path"], "?" + q["query"] if q["query"] else "")))
@@ -268,6 +297,11 @@ def judge(case, pred, r):
         if r["resolved"]:
             if r["doc_id"] != case["did"]:
                 viol.append((dict(kind="id-mismatch-accepted"), "%s resolved to a document with id %s" % (case["did"], r["doc_id"])))
+            if case.get("site") == "decoy" and allowed is not None:
+                # the location the identifier encodes answered 404 by construction: the document came from somewhere else
+                viol.append((dict(kind="fetch-other-path", resolved="document-of-another-location", **{"class": pc}),
+                             "%s: nothing is published at the location the identifier encodes (%s); it resolved to the document served at %s only: request(s) %s"
+                             % (case["did"], "/" + "/".join(x["segs"] + ["did.json"]), case["server"]["serve_at"], [q["path"] for q in reqs])))
             if x["host"] is None:
                 viol.append((dict(kind="forbidden-host-resolved", host=hc), "%s resolved" % case["did"]))
         if hc in NOTE_HOSTS and dials:
@@ -284,12 +318,20 @@ def judge(case, pred, r):
                 drift.append("%s: model predicts %d request(s), code made %d" % (case["did"], len(pred["fetches"]), len(reqs)))
 
     elif kind == "managed":
+        clock = history_class(case)
         if dials or reqs:
-            viol.append((dict(kind="managed-used-network"), "%s (managed, %s): dials %s requests %s" % (r["did"], case["local"], dials, reqs)))
+            viol.append((dict(kind="managed-used-network", clock=clock), "%s (managed, %s, version timestamps %s): dials %s requests %s" % (r["did"], case["local"], case.get("hist"), dials, reqs)))
         if r["resolved"] and r["doc_id"] != r["did"]:
             viol.append((dict(kind="id-mismatch-accepted", where="local"), "%s resolved to %s" % (r["did"], r["doc_id"])))
         if case["local"] == "deactivated" and case["meta"] != "true" and r["resolved"]:
-            viol.append((dict(kind="deactivated-resolved", meta=case["meta"]), "%s is deactivated and resolved with metadata %s" % (r["did"], case["meta"])))
+            viol.append((dict(kind="deactivated-resolved", meta=case["meta"], clock=clock),
+                         "%s is deactivated (version timestamps %s%s) and resolved with metadata %s: version %s with %d key(s)"
+                         % (r["did"], case.get("hist"), ", ahead of the clock: " + case["ahead"] if case.get("ahead", "none") != "none" else "",
+                            case["meta"], "fetched from the network" if reqs else r.get("doc_version"), r.get("doc_vms", -1))))
+        if case["local"] == "deactivated" and r["resolved"] and not r.get("meta_deactivated"):
+            notes.append(("deact-meta", "%s is deactivated (timestamps %s) and resolved with AllowDeactivated, document metadata says deactivated=false" % (r["did"], case.get("hist"))))
+        if case["local"] == "active" and r["resolved"] and r.get("doc_version") is not None and r["doc_version"] != len(case.get("hist") or [0]) - 1:
+            drift.append("managed active DID with version timestamps %s resolved to version %s, not to the last one" % (case.get("hist"), r["doc_version"]))
         if pred and (pred["outcome"] == "doc") != bool(r["resolved"]):
             drift.append("managed %s meta=%s: model predicts %s, code %s (%s)" % (case["local"], case["meta"], pred["outcome"],
                                                                              "resolved" if r["resolved"] else "error", r["err"][:120]))
@@ -383,7 +425,14 @@ def run(prop, tier, seed, replay=None):
         fz = vlib.tlc("MCDidResolve", "DidResolve.witnessFrozenPolicy.cfg", workers=2, timeout=300)
         if fz.violation != "FetchOnlyFromEncodedOrigin":
             raise Inconclusive("the model does not distinguish when the resolver is constructed (%s %s)" % (fz.violation, fz.error))
-        for wname in ("Doc", "Redirect", "Deactivated"):
+        # the model distinguishes the deviations of the new dimensions (each must violate exactly the named invariant)
+        for cfg, inv, what in (("witnessClockOrder", "DeactivatedNeedsOptIn", "'current version' by timestamp instead of by version number"),
+                               ("witnessDotCleaned", "ResolvedOnlyFromEncodedLocation", "a resolver that cleans dot segments"),
+                               ("witnessFutureHidden", "DeactivatedNeedsOptIn", "versions hidden by the now + 1h window")):
+            dv = vlib.tlc("MCDidResolve", "DidResolve.%s.cfg" % cfg, workers=2, timeout=300)
+            if dv.violation != inv:
+                raise Inconclusive("the model does not distinguish %s (%s %s)" % (what, dv.violation, dv.error))
+        for wname in ("Doc", "Redirect", "Deactivated", "SteppedBack", "Decoy"):
             wv = vlib.tlc("MCDidResolve", "DidResolve.witness%s.cfg" % wname, workers=2, timeout=300)
             if wv.violation != "Witness" + wname:
                 raise Inconclusive("vacuity witness %s not reachable (%s %s)" % (wname, wv.violation, wv.error))
@@ -473,7 +522,9 @@ def run(prop, tier, seed, replay=None):
                roundtrip_cases=len(rts), cases_with_property_violation=nviol_cases, known_findings=sorted(rep.known),
                drift=ndrift, notes=nnotes, cases_matching_only_the_prescriptive_design=repaired, models=models, samples=samples,
                rule="TLC enumerates the complete product of abstract classes of DidResolve.tla (24 host classes x 10 path classes x 14 server answers for "
-                    "remote did:web; 14 answers x 2 local histories x 3 metadata options for managed did:web; did:jwk / did:key x validity x metadata; every case x the moment the resolver and its HTTP client are "
+                    "remote did:web; 4 path classes with a canonical form x 24 host classes on a 'decoy' site (404 at the encoded location, the document only where a decoded / "
+                    "dot-cleaned / case-folded path leads); managed did:web: 14 answers x 2 plain histories x 3 metadata options, plus every weak order of the version timestamps "
+                    "of histories of up to 3 versions (same second, clock stepped back) and versions written ahead of the resolver's clock, x 3 metadata options; did:jwk / did:key x validity x metadata; every case x the moment the resolver and its HTTP client are "
                     "constructed: before strict mode is switched on - the production order of cmd.CreateSystem - or after) and "
                     "proves the invariants for the prescriptive design; every enumerated case is concretised (%s concrete variant(s) per class dimension, "
                     "seeded) and executed on the real vdr resolver wiring behind a recording dialer and local TLS/plain servers; the round-trip law is "
@@ -487,6 +538,9 @@ def run(prop, tier, seed, replay=None):
                          "the HTTP client runs with client.StrictMode = true at resolution time (strict mode is the default); two real vdr.Module instances exist per driver "
                          "process, one configured before and one after the flag is switched on; keep-alives disabled so every request dials",
                          "round-trip equality is taken modulo the case of hex digits in percent-escapes",
+                         "the wall clock has no seam in vdr/didsubject (time.Now()): local histories are written by the real manager (Create, CreateService, Deactivate) and the clock "
+                         "readings of the history are then written into did_document_version.updated_at; ResolveMetadata.ResolveTime (historical resolution) is not exercised",
+                         "the path an identifier encodes is taken literally, '.' and '..' segments included: a resolver that cleans them is reported, one that refuses such identifiers is not",
                          "did:x509 and did:nuts resolution are not exercised (did:nuts never uses HTTP; managed DIDs are did:web on sqlite)",
                          "a redirect to another path on the same host over https is not counted as a foreign origin"])
     return rep.finish()
